@@ -15,9 +15,12 @@ theorem C09_inv_init : Inv Attrs.init := by decide
     files, filepaths and their list mutations, filter-list edits, name, piece size and its
     bounds, hashing, an unrelated field — applied in a state that satisfies the invariant leaves
     a state that satisfies it, *also when the operation raises* (the model returns the state a
-    raising setter leaves behind).  Hypothesis `OpOk`: the operation is not a bound assignment
-    (`None` counting as the class default) across the other bound (open finding D09b). -/
-theorem C09_inv_step (env : Env) (s : St) (op : Op) (h : Inv s) (hok : OpOk s op) :
+    raising setter leaves behind).  Hypothesis `StepOk`: the operation is not a bound assignment
+    (`None` counting as the class default) across the other bound (`OpOk`, open finding D09b), and
+    it does not fail inside the recalculation of the piece length (the class's
+    `calculate_piece_size` raises or returns a value the `piece_size` setter rejects) — for those
+    failures see `C09_stamp_step`, `C09_weak_step`, `C09_inv_recovers`, `C09_inv_tracked`. -/
+theorem C09_inv_step (env : Env) (s : St) (op : Op) (h : Inv s) (hok : StepOk env s op) :
     Inv (apply env s op).1 :=
   apply_inv h env op hok
 
@@ -37,9 +40,11 @@ theorem C09_inv_history (env : Env) (ops : List Op) (hok : AllOk env Attrs.init 
     (`piece_size_min = v`, `piece_size_max = v`, `piece_size_max = None`) need no hypothesis at all
     — in particular `piece_size_min = None`. -/
 theorem C09_inv_step_unconditional (env : Env) (s : St) (op : Op) (h : Inv s)
-    (hop : ∀ v, op ≠ .setMin (some v) ∧ op ≠ .setMax (some v) ∧ op ≠ .setMax none) :
+    (hop : ∀ v, op ≠ .setMin (some v) ∧ op ≠ .setMax (some v) ∧ op ≠ .setMax none)
+    (hnf : (apply env s op).2.faulted = false) :
     Inv (apply env s op).1 := by
   apply apply_inv h env op
+  refine ⟨?_, hnf⟩
   cases op with
   | setMin v => cases v with
     | none => exact True.intro
@@ -57,7 +62,7 @@ def C09_inv_step_full : Prop :=
     raised because no piece size is set) and leaves min > max. -/
 theorem C09_inv_step_counterexample : ¬ C09_inv_step_full := by
   intro h
-  have := h ⟨[], []⟩ { Attrs.init with pmax := 32768 } (.setMin (some 65536)) (by decide)
+  have := h ⟨[], [], []⟩ { Attrs.init with pmax := 32768 } (.setMin (some 65536)) (by decide)
   revert this; decide
 
 /-- **Resetting a bound** (repaired finding D09c, fix 2a4faa5).  `piece_size_max = None` in a
@@ -69,8 +74,9 @@ theorem C09_inv_bound_reset (env : Env) (s : St) (h : Inv s) :
     (s.pmin ≤ defaultMax →
       Inv (apply env s (.setMax none)).1 ∧ (apply env s (.setMax none)).1.pmax = defaultMax ∧
       ∀ pl, (apply env s (.setMax none)).1.pl = some pl → pl ≤ defaultMax) := by
-  refine ⟨apply_inv h env _ True.intro, fun hle => ?_⟩
-  have hi : Inv (apply env s (.setMax none)).1 := apply_inv h env (.setMax none) hle
+  refine ⟨apply_inv h env _ ⟨True.intro, setMin_not_faulted s none⟩, fun hle => ?_⟩
+  have hi : Inv (apply env s (.setMax none)).1 :=
+    apply_inv h env (.setMax none) ⟨hle, setMax_not_faulted s none⟩
   have hm : (apply env s (.setMax none)).1.pmax = defaultMax := setMax_none_pmax s
   refine ⟨hi, hm, fun pl hp => ?_⟩
   have hpl := hi.2.2.2.1
@@ -80,8 +86,8 @@ theorem C09_inv_bound_reset (env : Env) (s : St) (h : Inv s) :
 
 /-- regression of the D09c witness: explicit maximum 32 MiB, piece size 32 MiB, then
     `piece_size_max = None` — the invariant holds and the piece size was clamped to 16 MiB -/
-example : Inv (apply ⟨[], []⟩ { Attrs.init with pmax := 33554432, pl := some 33554432 } (.setMax none)).1 ∧
-    (apply ⟨[], []⟩ { Attrs.init with pmax := 33554432, pl := some 33554432 } (.setMax none)).1.pl
+example : Inv (apply ⟨[], [], []⟩ { Attrs.init with pmax := 33554432, pl := some 33554432 } (.setMax none)).1 ∧
+    (apply ⟨[], [], []⟩ { Attrs.init with pmax := 33554432, pl := some 33554432 } (.setMax none)).1.pl
       = some 16777216 := by decide
 
 /-- **Crossing, then corrected** (narrows D09b).  A bound assignment — whatever it does: cross the
@@ -109,6 +115,175 @@ theorem C09_inv_history_corrected (env : Env) (ops : List Op) (hok : AllOkC env 
 theorem C09_allOk_corrected (env : Env) (ops : List Op) (s : St) (hok : AllOk env s ops) :
     AllOkC env s ops :=
   allOk_allOkC env ops s hok
+
+/-! ### operations that fail half-way, and the object is used again
+
+`_set_files` (the routine behind `path`, `files`, `filepaths`, their list edits and the callback of
+the four filter lists) writes the new file list first and recalculates the piece length last; the
+recalculation can fail — the class's `calculate_piece_size` raises (the stock method: beyond the
+range of a float) or returns a value the `piece_size` setter rejects (an override; bounds that
+crossed) — and the caller may catch the error and go on.  `Env.rules` describes the class, so the
+theorems below hold for every such class. -/
+
+/-- a fresh `Torrent()` satisfies both weaker invariants -/
+theorem C09_stamp_init : InvS Attrs.init ∧ InvW Attrs.init := by decide
+
+/-- **Step, no hypothesis at all.**  Whatever the operation, the file system and the class's
+    `calculate_piece_size` do, whether the operation completes, is rejected, or fails half-way
+    after it has already replaced the file list: in the state it leaves behind the mode matches
+    the file list and piece hashes, if present, are the ones computed for the **current** content
+    path, file list and piece length (`InvS`).  No `OpOk` either: this also covers the states of
+    open finding D09b (minimum above maximum). -/
+theorem C09_stamp_step (env : Env) (s : St) (op : Op) (h : InvS s) : InvS (apply env s op).1 :=
+  apply_invS h env op
+
+theorem C09_stamp_reachable (env : Env) (ops : List Op) (s : St) (h : InvS s) :
+    InvS (run env s ops) := by
+  induction ops generalizing s with
+  | nil => exact h
+  | cons op ops ih => exact ih _ (apply_invS h env op)
+
+/-- **All histories, no hypothesis**: after any sequence of operations on a fresh `Torrent()` —
+    failed ones included, and whatever came after them — hashes never outlive their layout. -/
+theorem C09_stamp_history (env : Env) (ops : List Op) : InvS (run env Attrs.init ops) :=
+  C09_stamp_reachable env ops _ C09_stamp_init.1
+
+/-- the same, read off for the hashes: if hashes are present after an operation — in particular
+    after one that **raised** —, they describe the current path, layout and piece length, their
+    number is `ceil(size / piece length)`, and unless the operation was `generate()` they are the
+    hashes that were there before and nothing they depend on was changed by the operation -/
+theorem C09_failed_step_no_stale_hashes (env : Env) (s : St) (op : Op) (h : InvS s)
+    (hex : PathEx env s) (g : Ghost) (hg : (apply env s op).1.pieces = some g) :
+    Current (apply env s op).1 g ∧
+    (op ≠ .generate → s.pieces = some g ∧ (apply env s op).1.path = s.path ∧
+      (apply env s op).1.content = s.content ∧ (apply env s op).1.pl = s.pl) := by
+  refine ⟨?_, fun hop => ?_⟩
+  · have := (apply_invS h env op).2
+    unfold StampOk at this; rw [hg] at this; exact this
+  · obtain ⟨a, b, c, d, _⟩ := apply_same h env hex op hop g hg
+    exact ⟨by rw [← a]; exact hg, b, c, d⟩
+
+/-- **What a failing `_set_files` leaves behind** (the model of the failed step): the new name
+    and file list, the new content path, **no hashes**, and the piece length and bounds it found. -/
+theorem C09_set_files_failed (env : Env) (s : St) (files : List (Path × Nat)) (bp : Option Path)
+    (hf : (setFilesCore env s files bp).2 ≠ .ok) :
+    (setFilesCore env s files bp).2.faulted = true ∧
+    (setFilesCore env s files bp).1.pieces = none ∧
+    (setFilesCore env s files bp).1.pl = s.pl ∧
+    (setFilesCore env s files bp).1.content = (place s.name (filterFiles s files (bp.getD [])) (bp.getD [])).1 ∧
+    (setFilesCore env s files bp).1.pmin = s.pmin ∧ (setFilesCore env s files bp).1.pmax = s.pmax := by
+  unfold setFilesCore at hf ⊢
+  simp only at hf ⊢
+  generalize hs2 : ({ s with content := _, name := _, pieces := none, path := _ } : St) = s2 at hf ⊢
+  rcases recalc_cases env s2 with ⟨_, e⟩ | ⟨_, e, hfl⟩ | ⟨_, n, _, _, _, e⟩
+  · rw [e] at hf; exact absurd rfl hf
+  · rw [e]; subst hs2; exact ⟨hfl, rfl, rfl, rfl, rfl, rfl⟩
+  · rw [e] at hf; exact absurd rfl hf
+
+/-- **Step that may fail inside the recalculation**: under `OpOk` everything of the invariant
+    survives except "content of positive size has a piece length" — bounds, the 16 KiB rule, the
+    piece length (the previous one, if the recalculation failed) within the bounds, mode, hashes. -/
+theorem C09_weak_step (env : Env) (s : St) (op : Op) (h : InvW s) (hok : OpOk s op) :
+    InvW (apply env s op).1 :=
+  apply_invW h env op hok
+
+theorem C09_weak_reachable (env : Env) (ops : List Op) (s : St) (h : InvW s)
+    (hok : AllOpOk env s ops) : InvW (run env s ops) := by
+  induction ops generalizing s with
+  | nil => exact h
+  | cons op ops ih => exact ih _ (apply_invW h env op hok.1) hok.2
+
+theorem C09_weak_history (env : Env) (ops : List Op) (hok : AllOpOk env Attrs.init ops) :
+    InvW (run env Attrs.init ops) :=
+  C09_weak_reachable env ops _ C09_stamp_init.2 hok
+
+/-- **Recovery**: after a failed operation (any state satisfying `InvW`), the next content or
+    `piece_size` assignment that completes restores the full invariant. -/
+theorem C09_inv_recovers (env : Env) (s : St) (op : Op) (h : InvW s) (hok : OpOk s op)
+    (hr : restores op = true) (hres : (apply env s op).2 = .ok) : Inv (apply env s op).1 :=
+  Inv.of_weak (apply_invW h env op hok) (apply_restores env s op hr hres)
+
+/-- one tracked step: `InvW` always, `Inv` if `fullAfter` says so -/
+theorem C09_inv_tracked_step (env : Env) (s : St) (full : Bool) (op : Op) (h : InvW s)
+    (hfull : full = true → Inv s) (hok : OpOk s op) :
+    InvW (apply env s op).1 ∧ (fullAfter env s full op = true → Inv (apply env s op).1) := by
+  refine ⟨apply_invW h env op hok, fun hfa => ?_⟩
+  unfold fullAfter at hfa
+  split at hfa
+  · exact Bool.noConfusion hfa
+  · rename_i hnf
+    have hnf' : (apply env s op).2.faulted = false := by simpa using hnf
+    cases full with
+    | true => exact apply_inv (hfull rfl) env op ⟨hok, hnf'⟩
+    | false =>
+      simp only [Bool.false_or, Bool.and_eq_true, decide_eq_true_eq] at hfa
+      exact C09_inv_recovers env s op h hok hfa.1 hfa.2
+
+/-- **Histories with failing steps** (every operation satisfies `OpOk`; failures inside the
+    recalculation are allowed anywhere): `InvW` holds at the end, and the full invariant holds
+    whenever the tracker `runFull` says so — it is lost by a step that fails inside the
+    recalculation and regained by the next content / `piece_size` assignment that completes. -/
+theorem C09_inv_tracked (env : Env) (ops : List Op) : ∀ (s : St) (full : Bool), InvW s →
+    (full = true → Inv s) → AllOpOk env s ops →
+    InvW (run env s ops) ∧ (runFull env s full ops = true → Inv (run env s ops)) := by
+  induction ops with
+  | nil => intro s full h hfull _; exact ⟨h, hfull⟩
+  | cons op ops ih =>
+    intro s full h hfull hok
+    obtain ⟨h1, h2⟩ := C09_inv_tracked_step env s full op h hfull hok.1
+    exact ih _ _ h1 h2 hok.2
+
+theorem C09_inv_tracked_history (env : Env) (ops : List Op) (hok : AllOpOk env Attrs.init ops) :
+    InvW (run env Attrs.init ops) ∧
+    (runFull env Attrs.init true ops = true → Inv (run env Attrs.init ops)) :=
+  C09_inv_tracked env ops _ true C09_stamp_init.2 (fun _ => C09_inv_init) hok
+
+/-- **The stock class**: with no overriding clause and a size below the float limit, the class's
+    method is the integer function `calcPieceSize`, the `None` route of the `piece_size` setter is
+    `setPieceSize s none`, and — the bounds being legal and not crossed — it cannot fail.  So for
+    the stock class a recalculation fails only beyond the float limit or in a D09b state. -/
+theorem C09_recalc_stock (env : Env) (s : St) (hr : env.rules = []) (hsz : size s < floatLimit) :
+    (recalc env s).1 = (setPieceSize s none).1 ∧
+    (s.pmin ≤ s.pmax → Mult16 s.pmin → Mult16 s.pmax → (recalc env s).2 = .ok) := by
+  have hc : calcOf env (size s) s.pmin s.pmax =
+      .value (calcPieceSize (size s) s.pmin s.pmax : Nat) := by
+    unfold calcOf
+    rw [hr]
+    simp only [List.find?_nil]
+    rw [if_neg (by omega)]
+  refine ⟨(recalc_stock env s hc).1, fun hb hmn hmx => ?_⟩
+  unfold recalc
+  split
+  · rfl
+  · rw [hc]
+    simp only
+    have hbd := calc_bounds (size s) s.pmin s.pmax hb
+    have hm := calc_mult16 (size s) s.pmin s.pmax hb hmn hmx
+    rcases checkAndStore_cases s (calcPieceSize (size s) s.pmin s.pmax : Nat) with he | ⟨m, _, _, _, _, he⟩
+    · exfalso
+      unfold checkAndStore at he
+      have hd : divisible ((calcPieceSize (size s) s.pmin s.pmax : Nat) : Int) = true := by
+        unfold Mult16 at hm
+        simp only [divisible, Bool.and_eq_true, decide_eq_true_eq, beq_iff_eq]; omega
+      have hbnd : ((s.pmin : Int) ≤ (calcPieceSize (size s) s.pmin s.pmax : Nat) &&
+          ((calcPieceSize (size s) s.pmin s.pmax : Nat) : Int) ≤ s.pmax) = true := by
+        simp only [Bool.and_eq_true, decide_eq_true_eq]; omega
+      simp only [hd, hbnd, Bool.not_true, Bool.false_eq_true, if_false] at he
+      have := congrArg Prod.snd he
+      simp at this
+    · rw [he]
+
+/-- … and beyond the float limit the stock method raises: the recalculation fails, the state is
+    untouched -/
+theorem C09_recalc_overflow (env : Env) (s : St) (hr : env.rules = []) (hsz : floatLimit ≤ size s) :
+    recalc env s = (s, .err (.calcRaised "OverflowError")) := by
+  have hpos : ¬ size s ≤ 0 := by unfold floatLimit at hsz; have := Nat.two_pow_pos 1036; omega
+  unfold recalc
+  rw [if_neg hpos]
+  unfold calcOf
+  rw [hr]
+  simp only [List.find?_nil]
+  rw [if_pos hsz]
 
 /-- `size` is the sum of the sizes of the listed files — in every state. -/
 theorem C09_size_sum (s : St) : size s = ((filesOf s).map (·.2)).sum := by
@@ -202,7 +377,7 @@ theorem C09_ready_current (env : Env) (s : St) (h : Inv s) (hr : isReady env s =
     attribute, `del` (item and slice), `pop`, `remove`, `clear`, `reverse`, re-assigning the value
     the list already has — on all four lists,
     with any items, duplicates included (no exclusion for D09d any more: fix e62ce6d). -/
-theorem C09_pieces_survive_only_unchanged (env : Env) (s : St) (op : Op) (h : Inv s)
+theorem C09_pieces_survive_only_unchanged (env : Env) (s : St) (op : Op) (h : InvS s)
     (hex : PathEx env s) (hop : op ≠ .generate) (g : Ghost)
     (hg : (apply env s op).1.pieces = some g) :
     s.pieces = some g ∧ (apply env s op).1.path = s.path ∧
@@ -215,7 +390,7 @@ theorem C09_pieces_survive_only_unchanged (env : Env) (s : St) (op : Op) (h : In
 /-- **An accepted edit of a filter list discards the hashes** (the callback `_filters_changed`
     re-runs `path = path` / `files = files`, which pops `pieces`), whatever the edit leaves in the
     list — also when it leaves the list as it was (`x = x`, `append` of a present pattern). -/
-theorem C09_filter_edit_discards (env : Env) (s : St) (h : Inv s) (hex : PathEx env s) (inc : Bool) :
+theorem C09_filter_edit_discards (env : Env) (s : St) (h : InvS s) (hex : PathEx env s) (inc : Bool) :
     (∀ l, (filtersChanged env (putGlobs s inc l)).1.pieces = none) ∧
     (∀ l, (filtersChanged env (putRxs s inc l)).1.pieces = none) :=
   ⟨fun l => put_none env _ (putGlobs_ok env inc) h hex l,
@@ -417,8 +592,8 @@ theorem C09_filter_reverse (env : Env) (s : St) (h : FiltersOk s) (inc : Bool) :
   refine ⟨eg, ?_, er, ?_, fun hi hex => ⟨?_, ?_⟩⟩
   · rw [eg]; exact get_changed env _ _ (globs_lens inc) s _
   · rw [er]; exact get_changed env _ _ (rxs_lens inc) s _
-  · rw [eg]; exact put_none env _ (putGlobs_ok env inc) hi hex _
-  · rw [er]; exact put_none env _ (putRxs_ok env inc) hi hex _
+  · rw [eg]; exact put_none env _ (putGlobs_ok env inc) hi.stamp hex _
+  · rw [er]; exact put_none env _ (putRxs_ok env inc) hi.stamp hex _
 
 /-- **The other in-place edits**, each through the primitives of `MonitoredList`
     (`insert`, `__delitem__`, the callback).  `insert(i, v)`: a rejected item raises `re.error` and
@@ -602,7 +777,7 @@ example : Inv { Attrs.init with pmax := 33554432, pl := some 33554432 } ∧
     satisfies `OpOk2` (an attribute operation satisfying `OpOk` on its own object, or a copy
     satisfying `CopyOk`), hence after every history satisfying `AllOk2` on two fresh objects. -/
 theorem C09_inv2_step (env : Env) (w : St2) (op : Op2) (ha : Inv w.a) (hb : Inv w.b)
-    (hok : OpOk2 w op) : Inv (apply2 env w op).1.a ∧ Inv (apply2 env w op).1.b := by
+    (hok : OpOk2 env w op) : Inv (apply2 env w op).1.a ∧ Inv (apply2 env w op).1.b := by
   cases op with
   | on second o =>
     cases second
@@ -752,5 +927,54 @@ example :
     (apply exEnv s1 (.rx false (.insert 9 r1))).1.exRegexs = [r1, r2, r3] ∧
     (apply exEnv s1 (.rx false (.insert 9 r1))).1.pieces = none ∧
     (apply exEnv s1 (.rx false (.delSlice 1 none))).1.exRegexs = [r1] := by decide +kernel
+
+/-! ### non-vacuity: histories in which an operation fails half-way and the object is used again -/
+
+/-- a class whose `calculate_piece_size` raises for content of 100 000 bytes and more; a single
+    file `T` (80 KiB) and a directory `U` with one file of 120 000 bytes -/
+def faultEnv : Env :=
+  { files := [(["T"], 81920), (["U", "a"], 120000)], rules := [⟨100000, none, .raise "CalcFault"⟩] }
+
+/-- `path = T; generate()`, then `path = U` fails inside the recalculation: the file list is the
+    new one, the hashes are gone, the piece length is still the one of `T`; `InvS` and `InvW` hold
+    (and here, a piece length being present, even `Inv`); the tracker gives up the full invariant;
+    `path = T` completes and restores it (tracker and invariant agree) -/
+example :
+    let s1 := run faultEnv Attrs.init [.setPath (some ["T"]), .generate]
+    let a := apply faultEnv s1 (.setPath (some ["U"]))
+    s1.pieces.isSome = true ∧ isReady faultEnv s1 = true ∧
+    a.2 = .err (.calcRaised "CalcFault") ∧ a.2.faulted = true ∧
+    a.1.content = .multi [⟨["a"], 120000⟩] ∧ a.1.path = some ["U"] ∧ a.1.pieces = none ∧
+    a.1.pl = s1.pl ∧ InvS a.1 ∧ InvW a.1 ∧
+    AllOpOk faultEnv Attrs.init [.setPath (some ["T"]), .generate, .setPath (some ["U"]), .setPath (some ["T"])] ∧
+    runFull faultEnv Attrs.init true [.setPath (some ["T"]), .generate, .setPath (some ["U"])] = false ∧
+    runFull faultEnv Attrs.init true [.setPath (some ["T"]), .generate, .setPath (some ["U"]), .setPath (some ["T"])] = true ∧
+    ¬ StepOk faultEnv s1 (.setPath (some ["U"])) := by decide +kernel
+
+/-- on a fresh object the same failure leaves content without any piece length: `Inv` fails,
+    `InvW` holds, and the next completed content assignment restores `Inv` (`C09_inv_recovers`);
+    a failing `files.append` / filter edit behaves alike -/
+example :
+    let a := apply faultEnv Attrs.init (.setPath (some ["U"]))
+    a.2.faulted = true ∧ ¬ Inv a.1 ∧ InvW a.1 ∧ size a.1 = 120000 ∧ a.1.pl = none ∧
+    Inv (apply faultEnv a.1 (.setPath (some ["T"]))).1 ∧ restores (.setPath (some ["T"])) = true ∧
+    (apply faultEnv a.1 (.setPath (some ["T"]))).2 = .ok := by decide +kernel
+
+/-- the stock class: `files = [File('N/huge', size=2**1100)]` on the hashed single-file torrent of the
+    first examples — `OverflowError` from `calculate_piece_size`, the file list is the new one, the
+    hashes are gone, the piece length stays -/
+example :
+    let s1 := run exEnv exS exOps
+    let a := apply exEnv s1 (.setFiles [(["N", "huge"], 2 ^ 1100)])
+    s1.pieces.isSome = true ∧ a.2 = .err (.calcRaised "OverflowError") ∧ a.1.pieces = none ∧
+    size a.1 = 2 ^ 1100 ∧ a.1.pl = s1.pl ∧ InvS a.1 ∧ InvW a.1 := by decide +kernel
+
+/-- an override that returns a value the `piece_size` setter rejects (`1000`: not a multiple of
+    16 KiB) fails with `PieceSizeError` after the file list was replaced -/
+example :
+    let env : Env := { files := [(["T"], 81920)], rules := [⟨0, none, .value 1000⟩] }
+    let a := apply env Attrs.init (.setPath (some ["T"]))
+    a.2 = .err .calcRejected ∧ a.1.content = .single 81920 ∧ a.1.pl = none ∧ InvW a.1 ∧ ¬ Inv a.1 :=
+  by decide +kernel
 
 end Torf.C09
